@@ -19,7 +19,7 @@ fn applicable(f: &Fam, g: &GShape) -> bool {
         return f.body == "c06";
     }
     if g.family == 1 {
-        return matches!(f.body, "c01" | "c02" | "c03") && !g.rows.is_empty();
+        return (matches!(f.body, "c01" | "c02" | "c03") && !g.rows.is_empty()) || (f.body == "c13" && g.itab.as_ref().map(|t| !t.cases.is_empty()).unwrap_or(false));
     }
     match f.body {
         "c01" => !g.rows.is_empty(),
@@ -31,6 +31,7 @@ fn applicable(f: &Fam, g: &GShape) -> bool {
         "c07" => b && g.liftable && !g.rows.is_empty(),
         "c09" => !g.rows.is_empty(),
         "c17" => b && g.has_desc && !g.rows.is_empty(),
+        "c13" => b && g.itab.as_ref().map(|t| !t.cases.is_empty()).unwrap_or(false),
         _ => false,
     }
 }
@@ -46,6 +47,7 @@ pub fn emit_wrappers(all: &[GShape], out_dir: &str) {
         Fam { prop: "c07", body: "c07", batch: 4, kind: "V", timeout: 1800, mem: 4 },
         Fam { prop: "c09", body: "c09", batch: 8, kind: "W", timeout: 1500, mem: 4 },
         Fam { prop: "c17", body: "c17", batch: 8, kind: "W", timeout: 1500, mem: 4 },
+        Fam { prop: "c13", body: "c13", batch: 6, kind: "W", timeout: 1500, mem: 4 },
     ];
     let mut src = String::from("// generated - do not edit\n#![allow(clippy::all)]\nuse super::shapes::*;\n");
     for f in &fams {
@@ -59,18 +61,27 @@ pub fn emit_wrappers(all: &[GShape], out_dir: &str) {
                 for v in [g.ops.len(), g.wits.len(), g.lockvecs.len(), g.policy.len(), rows] {
                     unwind = unwind.max(v);
                 }
+                if f.body == "c13" {
+                    if let Some(t) = &g.itab {
+                        unwind = unwind.max(t.cases.len());
+                    }
+                }
             }
             let _ = writeln!(src, "// @h {name} kind={} programs={} timeout={} mem={} covers=any", f.kind, chunk.len(), f.timeout, f.mem);
             let _ = writeln!(src, "#[cfg_attr(kani, kani::proof)]\n#[cfg_attr(kani, kani::unwind({}))]\npub fn {name}() {{", unwind + 2);
             for &i in chunk {
-                let _ = writeln!(src, "    crate::w::{}(&SH{i}); // {}", f.body, all[i].name);
+                if f.body == "c13" {
+                    let _ = writeln!(src, "    crate::w::c13(&super::c13::IC{i}); // {}", all[i].name);
+                } else {
+                    let _ = writeln!(src, "    crate::w::{}(&SH{i}); // {}", f.body, all[i].name);
+                }
             }
             let _ = writeln!(src, "}}");
         }
     }
     write_out(out_dir, "wrappers.rs", &src);
     let mut m = String::from("// generated - do not edit\npub mod shapes;\npub mod wrappers;\n");
-    for extra in ["c08", "c12", "c18"] {
+    for extra in ["c08", "c12", "c13", "c18"] {
         if std::path::Path::new(&format!("{out_dir}/{extra}.rs")).exists() {
             let _ = writeln!(m, "pub mod {extra};");
         }
